@@ -752,6 +752,13 @@ func (c *compiler) evalCallExpression(node *ast.CallExpression) (interface{}, er
 			mname = i.Value
 		}
 
+		if rc.Kind() == reflect.Ptr && rc.IsNil() {
+			if _, ok := rc.Type().Elem().MethodByName(mname); ok {
+				// a method with a value receiver cannot be called through a nil pointer
+				return nil, fmt.Errorf("'%s' is nil, cannot call '%s' (%s.%s)", node.Callee.String(), mname, node.Callee.String(), mname)
+			}
+		}
+
 		rv = rc.MethodByName(mname)
 		if !rv.IsValid() && rc.Type().Kind() != reflect.Ptr {
 			ptr := reflect.New(reflect.TypeOf(c))
